@@ -271,7 +271,10 @@ void RescaledHmmLikelihood::computeBackward_() const
         size_t jj = j * nbStates_;
         for (size_t k = 0; k < nbStates_; k++)
         {
-          x += (*emissions)[k] * trans[jj + k] * backLikelihood_[i][k];
+          // An impossible move contributes nothing, even if the (rescaled) backward
+          // value of an unreachable state has overflowed:
+          if ((*emissions)[k] > 0 && trans[jj + k] > 0)
+            x += (*emissions)[k] * trans[jj + k] * backLikelihood_[i][k];
         }
         backLikelihood_[i - 1][j] = x / scales_[i];
       }
@@ -336,7 +339,8 @@ Vdouble RescaledHmmLikelihood::getHiddenStatesPosteriorProbabilitiesForASite(siz
 
   for (size_t j = 0; j < nbStates_; j++)
   {
-    probs[j] = likelihood_[site * nbStates_ + j] * backLikelihood_[site][j];
+    // a state with null forward probability has null posterior probability:
+    probs[j] = likelihood_[site * nbStates_ + j] > 0 ? likelihood_[site * nbStates_ + j] * backLikelihood_[site][j] : 0.;
   }
 
   return probs;
@@ -360,7 +364,8 @@ void RescaledHmmLikelihood::getHiddenStatesPosteriorProbabilities(std::vector<st
     size_t ii = i * nbStates_;
     for (size_t j = 0; j < nbStates_; j++)
     {
-      probs[offset + i][j] = likelihood_[ii + j] * backLikelihood_[i][j];
+      // a state with null forward probability has null posterior probability:
+      probs[offset + i][j] = likelihood_[ii + j] > 0 ? likelihood_[ii + j] * backLikelihood_[i][j] : 0.;
     }
   }
 }
